@@ -47,7 +47,7 @@ LEVEL_TEXT = ("Lean 4 theorems, for every chunking (zero-length chunks included)
               "coarsen2_den and coarsen2_any_chunking (both axes of a 2-d array, every chunking of rows and columns; polymorphic "
               "in the element type, so further axes are instances). "
               "All over exact ordered values (Nat) along one axis unless said otherwise. Validated against NumPy only, not proved: float data / float "
-              "bin edges, NaN, weights of histogram(2d/dd), density, bins given as count + range, return_inverse on n-d input, "
+              "bin edges, NaN, float weights (and any weights of histogram2d/dd), density, bins given as count + range, return_inverse on n-d input, "
               "coarsen of arrays with three or more axes and with reductions other than through the model's sum, compress along an axis of an n-d array and with a "
               "NumPy condition (integer fancy indexing, C20/C21), isin/searchsorted with n-d operands, dtype of every result.")
 LEVEL_NOTE = ("Trusted: Lean kernel + standard axioms; the harness; NumPy's per-chunk kernels (np.searchsorted/bincount/histogram/"
@@ -301,6 +301,14 @@ def case_histogram(ctx, inp):
         ctx.eq("histogram: Lean merge of per-chunk histograms = whole", m[0], m[1])
         ctx.eq("histogram: Lean vs NumPy", m[1], e.tolist())
         ctx.branch("histogram:model")
+    if ("edges" in inp and w is not None and not inp.get("density") and x.ndim == 1 and x.dtype.kind == "i" and x.size
+            and len(inp["edges"]) >= 2 and x.min() >= 0 and all(float(t * 2).is_integer() for t in w.ravel())):
+        # exact model with the weights scaled to integers (halves)
+        wi = [int(t * 2) for t in w.ravel()]
+        m = ctx.lean(Sym("histogram_w"), inp["edges"], _split(x, chunks[0]), _split(wi, chunks[0]))
+        ctx.eq("histogram(weights): Lean sum of per-chunk weighted histograms = whole", m[0], m[1])
+        ctx.eq("histogram(weights): Lean vs NumPy", [t / 2 for t in m[1]], e.tolist())
+        ctx.branch("histogram:weights:model")
     ctx.branch("histogram:" + ("edges" if "edges" in inp else "bins+range") + (":weights" if w is not None else "") +
                (":density" if inp.get("density") else ""))
     if math.prod(len(c) for c in chunks) > 1:
